@@ -96,27 +96,27 @@ func AsInt(v any) int {
 
 // Exec is one execution: one server, one log, one or more connections.
 type Exec struct {
-	termFails bool
-	colCache  map[string]wire.Columns
-	Cfg       M
-	Log       *mem.Log
-	Lis       *mem.Listener
-	Srv       *wire.Server
-	Conns     []*mem.Conn
-	Limit     int // configured message limit (bytes); 0 = library default
-	scripts   map[string]M
-	nextID    int
-	served    chan error
-	kept      []retained
-	keptMaps  [][2]wire.Parameters // parameter maps callbacks kept, each with a copy of what it held then
-	Sched     *Sched // set when goroutines are under schedule control (C16 / C15)
-	Global    wire.Parameters
+	termFails  bool
+	colCache   map[string]wire.Columns
+	Cfg        M
+	Log        *mem.Log
+	Lis        *mem.Listener
+	Srv        *wire.Server
+	Conns      []*mem.Conn
+	Limit      int // configured message limit (bytes); 0 = library default
+	scripts    map[string]M
+	nextID     int
+	served     chan error
+	kept       []retained
+	keptMaps   [][2]wire.Parameters // parameter maps callbacks kept, each with a copy of what it held then
+	Sched      *Sched               // set when goroutines are under schedule control (C16 / C15)
+	Global     wire.Parameters
 	GlobalBase wire.Parameters // a map given to an earlier GlobalParameters option (replaced by the later one)
-	TLS       *tls.Config // the configuration handed to the server (the user's object) ...
-	tlsSnap   *tls.Config // ... and a copy taken before the server saw it
-	ctxMu     sync.Mutex
-	lastCtx   map[int]context.Context // per connection: context of the command whose callback ran last
-	prevCtx   map[int]context.Context // per connection: context of the command before that one
+	TLS        *tls.Config     // the configuration handed to the server (the user's object) ...
+	tlsSnap    *tls.Config     // ... and a copy taken before the server saw it
+	ctxMu      sync.Mutex
+	lastCtx    map[int]context.Context // per connection: context of the command whose callback ran last
+	prevCtx    map[int]context.Context // per connection: context of the command before that one
 }
 
 type ctxKeyT int
